@@ -15,6 +15,7 @@ type ExchangeJSightSchema struct {
 	*jschema.JSchema
 
 	onceCompile            sync.Once
+	compileErr             error
 	onceExample            sync.Once
 	example                []byte
 	exampleErr             error
@@ -75,19 +76,18 @@ func (e *ExchangeJSightSchema) Notation() notation.SchemaNotation {
 	return notation.SchemaNotationJSight
 }
 
-func (e *ExchangeJSightSchema) Compile() (err error) {
+// Compile builds the exchange content once. Every call returns the result of
+// that single compilation (a failure is not forgotten after the first call).
+func (e *ExchangeJSightSchema) Compile() error {
 	e.onceCompile.Do(func() {
-		err = e.buildContent()
-		if err != nil {
+		e.compileErr = e.buildContent()
+		if e.compileErr != nil {
 			return
 		}
 
-		err = e.processAllOf(e.exchangeUsedUserTypes)
-		if err != nil {
-			return
-		}
+		e.compileErr = e.processAllOf(e.exchangeUsedUserTypes)
 	})
-	return err
+	return e.compileErr
 }
 
 func (e *ExchangeJSightSchema) buildContent() error {
